@@ -461,3 +461,59 @@ def subst(e, env, depth=0, keep=()):
 def ctext(e, env, keep=()):
     """canonical text of an expression (see subst)"""
     return ast.unparse(subst(e, env, keep=keep)).replace(' ', '')
+
+
+def _put_self(e, recv):
+    import copy as _copy
+
+    class S(ast.NodeTransformer):
+        def visit_Name(self, x):
+            return ast.copy_location(_copy.deepcopy(recv), x) if x.id == 'self' else x
+    return S().visit(_copy.deepcopy(e))
+
+
+def inline_accessors(P, cls, e, depth=0):
+    """copy of expression e in which a call `self.m(args)` / `<Class of the MRO>.m(args)` of a method (plain or static) whose body is a
+    straight-line computation (simple_return) is replaced by the value it returns, with call-free arguments put in for the parameters:
+    a value obtained through a small named helper is the value"""
+    import copy as _copy
+    if depth > 4:
+        return e
+    names = {k.name for k in cls.mro}
+
+    def unique_prop(attr):
+        owners = [k for ks in P.by_name.values() for k in ks if attr in k.props and 'get' in k.props[attr]]
+        others = [k for ks in P.by_name.values() for k in ks if attr in k.methods or attr in k.class_attrs]
+        return owners[0] if len(owners) == 1 and not others else None
+
+    class T(ast.NodeTransformer):
+        def visit_Attribute(self, n):
+            self.generic_visit(n)
+            # `order.target_name` where exactly one class of the package defines a property of that name with a straight-line getter:
+            # the value of the getter with self := the receiver
+            if isinstance(n.ctx, ast.Load) and isinstance(n.value, ast.Name) and n.value.id not in ('self', 'cls'):
+                k = unique_prop(n.attr)
+                if k is not None:
+                    ret = simple_return(k.props[n.attr]['get'])
+                    if ret is not None and not any(isinstance(x, ast.Name) and x.id != 'self' and not isinstance(x.ctx, ast.Load) for x in ast.walk(ret)):
+                        return subst(ret, {'self': n.value}) if False else _put_self(ret, n.value)
+            return n
+
+        def visit_Call(self, n):
+            self.generic_visit(n)
+            f = n.func
+            if not (isinstance(f, ast.Attribute) and isinstance(f.value, ast.Name) and (f.value.id in ('self', 'cls') or f.value.id in names)) or n.keywords:
+                return n
+            hit = P.lookup(cls, f.attr)
+            if not hit or hit[1] != 'method':
+                return n
+            fn = hit[2]
+            ret = simple_return(fn)
+            if ret is None:
+                return n
+            static = any(isinstance(d, ast.Name) and d.id == 'staticmethod' for d in fn.decorator_list)
+            params = [a.arg for a in fn.args.args][(0 if static else 1):]
+            if len(params) != len(n.args) or any(isinstance(x, ast.Call) for a in n.args for x in ast.walk(a)):
+                return n
+            return inline_accessors(P, cls, subst(ret, dict(zip(params, n.args))), depth + 1)
+    return T().visit(_copy.deepcopy(e))
